@@ -111,7 +111,7 @@ CATALOGUE = [
     # ---- C16 ----
     ("C16", "c16-le", ST, "            while i < stop:", "            while i <= stop:", 1, "fire", "strictly before"),
     ("C16", "c16-order", ST, "                result.append(i)\n                i += step\n        elif step < 0:", "                i += step\n                result.append(i)\n        elif step < 0:", 1, "fire", "appends the value, then advances"),
-    ("C16", "c16-no-cutback", SL, "            self.parent.signal_refs = new_signal_refs\n", "", 1, "fire", "signal_refs"),
+    ("C16", "c16-no-cutback", SL, "            self.parent.signal_refs = {\n                k: (saved_signal_refs[k] if k in iteration_locals else v)\n                for k, v in self.parent.signal_refs.items()\n                if k in saved_signal_refs\n            }\n", "", 1, "fire", "signal_refs"),
     ("C16", "c16-benign-range", ST, "PLACEHOLDER-NOT-PRESENT", "x", 0, "silent", ""),
     # ---- C17 ----
     ("C17", "c17-no-add", PRE, "                processed_files.add(file_path)\n", "", 1, "fire", "recorded as processed"),
@@ -139,6 +139,8 @@ CATALOGUE = [
     ("C18", "c18-bbox-benign-int", PP, "        user_max_x, user_max_y = 0.0, 0.0\n", "        user_max_x, user_max_y = 0, 0\n", 1, "silent", ""),
     ("C20", "c20-override-cond", EP, "            if declared_name:\n                debug_info[\"variable\"] = declared_name", "            if declared_name and not getattr(op, \"debug_label\", None):\n                debug_info[\"variable\"] = declared_name", 1, "fire", "additionally conditioned"),
     ("C16", "c16-scope-rewrite", AN, "        source = proj_expr.expr\n        target_type = proj_expr.target_type\n", "        source = proj_expr.expr\n        target_type = proj_expr.target_type\n        if self.current_scope.lookup(getattr(source, \"name\", \"\")) is not None:\n            return None\n", 1, "fire", "C16-R6"),
+    ("C16", "c16-restore-keys-only", SL, "                k: (saved_signal_refs[k] if k in iteration_locals else v)\n", "                k: v\n", 1, "fire", "outer ASTLowerer.signal_refs value back"),
+    ("C01", "c01-literal-zero", EL, "            ref = self.ir_builder.const(output_type, const_value, expr)\n        else:\n            ref = self.ir_builder.arithmetic(\"+\", value_ref, 0, output_type, expr)", "            ref = self.ir_builder.const(output_type, const_value, expr)\n        else:\n            ref = self.ir_builder.const(output_type, 0, expr)", 1, "fire", "C01-R8"),
     ("C19", "c19-dict-order-from-set", CP, "merge_list = sorted(source_merge_edges.keys())", "merge_list = list(source_merge_edges)", 1, "fire", "C19-R1"),
 ]
 
